@@ -94,13 +94,19 @@ Definition holds_C06_f (c : fcase) : bool :=
     | (s, po, t0) :: ks =>
         (spec_signal s =? spec_signal (p_signal p)) && Bool.eqb po (p_parent_only p) &&
         (t0 <=? f_slack c) &&
-        let ended_in_time := match a_proc (f_ans c) with
-                             | EndsAfter ms => ms + f_slack c <? Z.max 0 to_ms | NeverEnds => false end in
-        let must_kill := negb (p_timeout p =? 0) && negb ended_in_time in
+        (* scripted reactions within half the tolerance of the deadline are left undecided *)
+        let T := Z.max 0 to_ms in
+        let margin := f_slack c / 2 in
+        let surely_ended := match a_proc (f_ans c) with
+                            | EndsAfter ms => ms + margin <? T | NeverEnds => false end in
+        let surely_alive := match a_proc (f_ans c) with
+                            | EndsAfter ms => T + margin <? ms | NeverEnds => true end in
+        let must_kill := negb (p_timeout p =? 0) && surely_alive in
+        let may_kill := negb (p_timeout p =? 0) && negb surely_ended in
         match ks with
         | [] => negb must_kill
         | [(s9, po9, tk)] =>
-            must_kill && (s9 =? 9) && Bool.eqb po9 (p_parent_only p) &&
+            may_kill && (s9 =? 9) && Bool.eqb po9 (p_parent_only p) &&
             (to_ms <=? tk) && (tk <=? Z.max 0 to_ms + f_slack c) &&
             (* the instance had not ended (long) before the SIGKILL *)
             match f_end c with Some te => tk <=? te + f_slack c | None => true end
@@ -155,14 +161,20 @@ Definition death_ok (c : rcase) (m : member) : bool :=
   end.
 
 (* a recorder that dies of the first signal wrote exactly that signal (SIGKILL cannot be caught) *)
+Definition first_signal (c : rcase) : option (target * Z) :=
+  let p := r_params c in
+  if p_has_cmd p
+  then match cb_effect (r_cb c) with Some (t, s) => Some (t, eff_signal s) | None => None end
+  else Some (target_of (p_parent_only p), eff_signal (p_signal p)).
+
 Definition sig_ok (c : rcase) (m : member) : bool :=
   if existsb (N.eqb (m_id m)) (r_recorders c) then
-    let s := eff_signal (p_signal (r_params c)) in
-    let hit := negb (p_has_cmd (r_params c)) && addressed (target_of (p_parent_only (r_params c))) m
-               && dies_on s m && negb (s =? 9) in
+    let expected := match first_signal c with
+                    | Some (t, s) => if addressed t m && dies_on s m && negb (s =? 9) then [s] else []
+                    | None => [] end in
     match lookupN (m_id m) (r_sigs c) with
-    | Some l => list_eqb Z.eqb l (if hit then [s] else [])
-    | None => negb hit
+    | Some l => list_eqb Z.eqb l expected
+    | None => match expected with [] => true | _ => false end
     end
   else true.
 
